@@ -605,6 +605,9 @@ func (e *emitter) symd(x ast.Expr, d int) string {
 		}
 		return e.symd(x.Sel, d+1)
 	case *ast.CallExpr:
+		if r, ok := e.inlineExprCall(x, d); ok {
+			return r
+		}
 		var args []string
 		for _, a := range x.Args {
 			args = append(args, e.symd(a, d+1))
